@@ -6,6 +6,7 @@ import Driver.Lifecycle
 import Driver.Sup
 import Driver.SupReload
 import Driver.Comp
+import Driver.CompAcc
 import Driver.Http
 import Driver.Crash
 import Driver.Cluster
@@ -22,6 +23,7 @@ def dispatch (ws : List String) : String :=
   | "supaccept" :: _ | "c01holds" :: _ | "c02holds" :: _ | "c03holds" :: _ | "c04holds" :: _
   | "known" :: "C02-F2" :: _ => (Driver.Sup.handle ws).getD "bad-op"
   | "relaccept" :: _ | "c05holds" :: _ => (Driver.SupReload.handle ws).getD "bad-op"
+  | "compaccept" :: _ => (Driver.CompAcc.handle ws).getD "bad-op"
   | "c09holds" :: _ | "c10holds" :: _ | "c11holds" :: _ | "compseq" :: _
   | "known" :: "C09-F1" :: _ => (Driver.Comp.handle ws).getD "bad-op"
   | "c08streamholds" :: _ | "c12busyholds" :: _ | "known" :: "C12-F1" :: _ | "known" :: "C08-F1" :: _ | "c12holds" :: _ | "c13holds" :: _ | "c14holds" :: _ | "c08holds" :: _ | "httpseq" :: _ => (Driver.Http.handle ws).getD "bad-op"
